@@ -21,11 +21,37 @@ def check(ctx, rep, tier):
     rep.describe("unique-name", "no two productions share a name")
     c12._productions(ctx, rep)
     _trace(ctx, rep)
+    _all_matches(ctx, rep)
     c19._registry(ctx, rep)
     c19._names(ctx, rep)
     rep.count("rules", len(ctx.rb.rules), 40)
     rep.assume("not decided: soundness/completeness of the optimised search (_seq_match, "
                "_filter_rules, dedup) against the derivation semantics")
+
+
+def _all_matches(ctx, rep):
+    """Completeness, necessary condition: the matcher enumerates *all* (overlapping)
+    matches of every pattern — a derivation can start from any of them."""
+    rep.describe("all-matches", "the matcher asks the regex engine for overlapping matches of "
+                 "every registered pattern (necessary for completeness: a derivation may start "
+                 "from any match)")
+    cm = ctx.mod("ctparse.ctparse")
+    f = cm.func("_match_regex")
+    calls = [c for c in calls_in(f) if isinstance(c.func, ast.Attribute) and c.func.attr in ("finditer", "findall", "search", "match")]
+    ok = False
+    det = "no finditer call"
+    for c in calls:
+        kw = {k.arg: k.value for k in c.keywords}
+        ov = kw.get("overlapped")
+        ok = c.func.attr == "finditer" and isinstance(ov, ast.Constant) and ov.value is True
+        det = "" if ok else "matches are enumerated with {}({})".format(
+            c.func.attr, ", ".join("{}={}".format(k, norm(v)) for k, v in kw.items()))
+    rep.add("all-matches", cm.rel + "::_match_regex::overlapped matches", cm.where(f), ok, det)
+    # every registered pattern is iterated
+    loops_all = any(isinstance(n, ast.comprehension) and ".items()" in norm(n.iter) for n in ast.walk(f)) or \
+        any(isinstance(n, ast.For) and ".items()" in norm(n.iter) for n in ast.walk(f))
+    rep.add("all-matches", cm.rel + "::_match_regex::all patterns", cm.where(f), loops_all,
+            "" if loops_all else "not every registered pattern is matched")
 
 
 def _trace(ctx, rep):
